@@ -1,10 +1,12 @@
 package props
 
 import (
+	"encoding/json"
 	"fmt"
 	"github.com/mithrandie/csvq/lib/value"
 	"path/filepath"
 	"strings"
+	"time"
 
 	"verifharness/internal/core"
 	"verifharness/internal/sut"
@@ -26,7 +28,41 @@ func init() {
 		value.VerifPoison = true
 		defer func() { value.VerifPoison = false }()
 		runActionCheck(r, sp)
+		c16Nested(r)
 	}}
+}
+
+// c16Nested: one cursor name declared in two nested blocks (Scope.tla, families Sk16 and Sk17): OPEN, FETCH, CLOSE, IS OPEN
+// and DISPOSE mean the innermost cursor of the name - a closed inner cursor is an error, never the rows of the open outer one
+func c16Nested(r *core.Run) {
+	var cases []scopeCase
+	r.RunTLC(core.TLCOpts{Module: "ScopeGen", Cfg: "ScopeGen_cursors.cfg", Workers: 2, Timeout: 10 * time.Minute, OnTrace: func(raw json.RawMessage) {
+		var c scopeCase
+		if err := json.Unmarshal(raw, &c); err == nil && c.Prog != nil {
+			if c.Out == nil {
+				c.Out = []string{}
+			}
+			cases = append(cases, c)
+		}
+	}})
+	if len(cases) < 500 {
+		core.Fail("only %d nested-cursor programs", len(cases))
+	}
+	dir := r.Dir("nested")
+	rep := map[string]bool{}
+	for _, c := range cases {
+		p, err := sut.NewProc(dir, nil)
+		if err != nil {
+			core.Fail("proc: %v", err)
+		}
+		sig, what := runScopeCase(r, p, c)
+		p.End()
+		if sig != "" && !rep[sig] {
+			rep[sig] = true
+			r.Violation("cursor:nested:"+sig, what, map[string]interface{}{"program": renderStmts(c.Prog, "")})
+		}
+	}
+	r.Coverage["nested_cursor_programs"] = len(cases)
 }
 
 func cursorSetup(dir string, init Action) []string {
@@ -143,6 +179,9 @@ func cursorExec(p *sut.Proc, a Action) Out {
 	case "delete":
 		o, _ := stmtOut(p, fmt.Sprintf("DELETE FROM t WHERE id = %d;", aInt(a, "id")))
 		return o
+	case "replace":
+		o, _ := stmtOut(p, fmt.Sprintf("REPLACE INTO t (id, v) USING (id) VALUES (%d, %d);", aInt(a, "id"), aInt(a, "v")))
+		return o
 	case "commit":
 		o, _ := stmtOut(p, "COMMIT;")
 		return o
@@ -237,8 +276,10 @@ func cursorRandom(r *core.Run, k int) (Action, []Action) {
 		case x < 80:
 			acts = append(acts, cursorA("insert", "", "", "", 0, nextID, 1+rng.Intn(3)))
 			nextID++
-		case x < 88:
+		case x < 85:
 			acts = append(acts, cursorA("update", "", "", "", 0, 1+rng.Intn(nextID), 0))
+		case x < 88:
+			acts = append(acts, cursorA("replace", "", "", "", 0, 1+rng.Intn(nextID), 1+rng.Intn(3)))
 		case x < 93:
 			acts = append(acts, cursorA("delete", "", "", "", 0, 1+rng.Intn(nextID), 0))
 		case x < 95:
